@@ -1,6 +1,6 @@
 // C17: scores obey the BM25 laws and explanations derive the score.
 //
-// Three bounded-exhaustive enumerations:
+// Four bounded-exhaustive enumerations:
 //
 //	c17-direct   direct calls of BM25Similarity.Scorer(...).Score / Explain over the
 //	             full statistics grid (laws + explanation interpreter on every node)
@@ -10,6 +10,9 @@
 //	             separate leaf searches, explain == no-explain bit for bit, interpreter)
 //	c17-kinds    every scoring query kind x boosts on a fixed corpus (boost linearity,
 //	             explain == no-explain, interpreter)
+//	c17-sequences every sequence of <= 3 searches (scored, score=none, explain, locations,
+//	             conjunction/disjunction/phrase) on ONE reader taken from a live writer,
+//	             compared with the same searches on fresh readers of the same content
 //
 // The oracle never calls a searcher or scorer to obtain an expected value other than
 // the *leaf* scores the property itself takes as given ("recomputed from leaf scores").
@@ -1348,19 +1351,386 @@ func kindsEval(idx int64, param string) *explore.Result {
 	return res
 }
 
+// ---------------------------------------------------------------- (4) sequences of searches on one live reader
+
+// One reader obtained from a live writer (its snapshot is the writer's current
+// epoch, so closed postings iterators are recycled per field) serves a sequence
+// of searches with different score modes and options.  Every search must return
+// exactly what the same search returns on a fresh reader of the same content.
+
+type sstep struct {
+	name   string
+	scored bool
+	mk     func() bluge.SearchRequest
+}
+
+func seqTerm(t string) bluge.Query { return bluge.NewTermQuery(t).SetField("t") }
+
+var seqSteps = []sstep{
+	{"term x", true, func() bluge.SearchRequest { return bluge.NewTopNSearch(10, seqTerm("x")) }},
+	{"term x score=none", false, func() bluge.SearchRequest { return bluge.NewTopNSearch(10, seqTerm("x")).SetScore("none") }},
+	{"and[x y]", true, func() bluge.SearchRequest {
+		return bluge.NewTopNSearch(10, bluge.NewBooleanQuery().AddMust(seqTerm("x"), seqTerm("y")))
+	}},
+	{"and[x y] score=none", false, func() bluge.SearchRequest {
+		return bluge.NewTopNSearch(10, bluge.NewBooleanQuery().AddMust(seqTerm("x"), seqTerm("y"))).SetScore("none")
+	}},
+	{"or[x y] score=none", false, func() bluge.SearchRequest {
+		return bluge.NewTopNSearch(10, bluge.NewBooleanQuery().AddShould(seqTerm("x"), seqTerm("y"))).SetScore("none")
+	}},
+	{"or[x y]", true, func() bluge.SearchRequest {
+		return bluge.NewTopNSearch(10, bluge.NewBooleanQuery().AddShould(seqTerm("x"), seqTerm("y")))
+	}},
+	{"term x explain", true, func() bluge.SearchRequest { return bluge.NewTopNSearch(10, seqTerm("x")).ExplainScores() }},
+	{"term y locations", true, func() bluge.SearchRequest { return bluge.NewTopNSearch(10, seqTerm("y")).IncludeLocations() }},
+	{"phrase \"x y\"", true, func() bluge.SearchRequest {
+		return bluge.NewTopNSearch(10, bluge.NewMatchPhraseQuery("x y").SetField("t"))
+	}},
+	{"term y score=none locations", false, func() bluge.SearchRequest {
+		return bluge.NewTopNSearch(10, seqTerm("y")).SetScore("none").IncludeLocations()
+	}},
+	{"all-matches term y", true, func() bluge.SearchRequest { return bluge.NewAllMatches(seqTerm("y")) }},
+}
+
+var seqCorpora = [][]string{
+	{"x x y z", "x y y z", "y z", "x"},
+	{"x y", "x x x y", "y", "x y z z", noField, ""},
+}
+
+func seqCount() int64 {
+	n := int64(len(seqSteps))
+	return n + n*n + n*n*n
+}
+
+func seqTotal(string) int64 { return int64(len(seqCorpora)) * seqCount() }
+
+func seqOf(k int64) []int {
+	n := int64(len(seqSteps))
+	for l := 1; l <= 3; l++ {
+		c := int64(1)
+		for i := 0; i < l; i++ {
+			c *= n
+		}
+		if k < c {
+			out := make([]int, l)
+			for i := l - 1; i >= 0; i-- {
+				out[i] = int(k % n)
+				k /= n
+			}
+			return out
+		}
+		k -= c
+	}
+	return nil
+}
+
+type shit struct {
+	num   uint64
+	doc   int
+	score float64
+	expl  *search.Explanation
+	locs  string
+}
+
+type sresult struct {
+	hits []shit
+	err  string
+}
+
+func seqSearch(r *bluge.Reader, req bluge.SearchRequest) (res sresult) {
+	defer func() {
+		if p := recover(); p != nil {
+			res.err = fmt.Sprintf("PANIC: %v", p)
+		}
+	}()
+	it, err := r.Search(context.Background(), req)
+	if err != nil {
+		return sresult{err: err.Error()}
+	}
+	for {
+		m, err := it.Next()
+		if err != nil {
+			return sresult{err: err.Error()}
+		}
+		if m == nil {
+			break
+		}
+		var ls []string
+		for f, tlm := range m.Locations {
+			for t, l := range tlm {
+				for _, x := range l {
+					ls = append(ls, fmt.Sprintf("%s:%s@%d[%d,%d)", f, t, x.Pos, x.Start, x.End))
+				}
+			}
+		}
+		sort.Strings(ls)
+		res.hits = append(res.hits, shit{num: m.Number, doc: -1, score: m.Score, expl: m.Explanation, locs: strings.Join(ls, " ")})
+	}
+	return res
+}
+
+func seqDocs(texts []string) []*bluge.Document {
+	var docs []*bluge.Document
+	for i, t := range texts {
+		d := bluge.NewDocument(fmt.Sprintf("d%d", i))
+		if t == noField {
+			d.AddField(bluge.NewTextField("u", "x y"))
+		} else {
+			d.AddField(bluge.NewTextField("t", t).HighlightMatches())
+		}
+		docs = append(docs, d)
+	}
+	return docs
+}
+
+func numToDoc(r *bluge.Reader) (map[uint64]int, error) {
+	num2doc := map[uint64]int{}
+	it, err := r.Search(context.Background(), bluge.NewAllMatches(bluge.NewMatchAllQuery()))
+	if err != nil {
+		return nil, err
+	}
+	for {
+		m, err := it.Next()
+		if err != nil {
+			return nil, err
+		}
+		if m == nil {
+			return num2doc, nil
+		}
+		id := ""
+		_ = m.VisitStoredFields(func(field string, value []byte) bool {
+			if field == "_id" {
+				id = string(value)
+			}
+			return true
+		})
+		n, err := strconv.Atoi(strings.TrimPrefix(id, "d"))
+		if err != nil {
+			return nil, fmt.Errorf("unexpected id %q", id)
+		}
+		num2doc[m.Number] = n
+	}
+}
+
+func (r *sresult) resolve(num2doc map[uint64]int) {
+	for i := range r.hits {
+		if d, ok := num2doc[r.hits[i].num]; ok {
+			r.hits[i].doc = d
+		}
+	}
+	sort.Slice(r.hits, func(i, j int) bool { return r.hits[i].doc < r.hits[j].doc })
+}
+
+func (r *sresult) String() string {
+	if r.err != "" {
+		return "error " + r.err
+	}
+	var p []string
+	for _, h := range r.hits {
+		s := fmt.Sprintf("d%d=%v", h.doc, h.score)
+		if h.locs != "" {
+			s += "{" + h.locs + "}"
+		}
+		p = append(p, s)
+	}
+	return "[" + strings.Join(p, " ") + "]"
+}
+
+// expected results: every step on its own fresh reader (opened after the writer was closed)
+var seqFresh = map[int][]sresult{}
+
+func seqExpected(ci int) ([]sresult, error) {
+	if e, ok := seqFresh[ci]; ok {
+		return e, nil
+	}
+	dir := crashfs.New()
+	dir.Points = false
+	var werr error
+	s := verifmc.Run(verifmc.Options{}, func() {
+		w, err := bluge.OpenWriter(harness.Config(dir, harness.Opts{NoMemMerge: true}))
+		if err != nil {
+			werr = err
+			return
+		}
+		b := bluge.NewBatch()
+		for _, d := range seqDocs(seqCorpora[ci]) {
+			b.Insert(d)
+		}
+		if err := w.Batch(b); err != nil {
+			werr = err
+		}
+		if err := w.Close(); err != nil && werr == nil {
+			werr = err
+		}
+	})
+	if s.Failure != "" {
+		return nil, fmt.Errorf("index build failed: %s", s.Failure)
+	}
+	if werr != nil {
+		return nil, werr
+	}
+	var out []sresult
+	for _, st := range seqSteps {
+		r, err := bluge.OpenReader(harness.Config(dir, harness.Opts{}))
+		if err != nil {
+			return nil, err
+		}
+		res := seqSearch(r, st.mk())
+		n2d, err := numToDoc(r)
+		if err != nil {
+			return nil, err
+		}
+		res.resolve(n2d)
+		_ = r.Close()
+		out = append(out, res)
+	}
+	seqFresh[ci] = out
+	return out, nil
+}
+
+func seqEval(idx int64, param string) *explore.Result {
+	ci := int(idx / seqCount())
+	seq := seqOf(idx % seqCount())
+	var names []string
+	for _, s := range seq {
+		names = append(names, seqSteps[s].name)
+	}
+	desc := fmt.Sprintf("docs=%q live reader, searches in order: %s", seqCorpora[ci], strings.Join(names, " ; "))
+	res := &explore.Result{Counts: map[string]int64{}, Flags: map[string]bool{}, Outcome: fmt.Sprint(idx)}
+	var fs failures
+	defer func() { fs.into(res) }()
+	want, err := seqExpected(ci)
+	if err != nil {
+		res.Failure, res.Key = "harness: "+err.Error(), "harness"
+		return res
+	}
+	got := make([]sresult, len(seq))
+	var herr error
+	current := true
+	dir := crashfs.New()
+	dir.Points = false
+	s := verifmc.Run(verifmc.Options{}, func() {
+		w, err := bluge.OpenWriter(harness.Config(dir, harness.Opts{NoMemMerge: true}))
+		if err != nil {
+			herr = err
+			return
+		}
+		defer w.Close()
+		b := bluge.NewBatch()
+		for _, d := range seqDocs(seqCorpora[ci]) {
+			b.Insert(d)
+		}
+		if err := w.Batch(b); err != nil {
+			herr = err
+			return
+		}
+		r, err := w.Reader()
+		if err != nil {
+			herr = err
+			return
+		}
+		defer r.Close()
+		isCurrent := func() bool {
+			e, _ := w.VerifIndexWriter().VerifRootSegmentIDs()
+			return e == r.VerifSnapshot().VerifEpoch()
+		}
+		for i, st := range seq {
+			if !isCurrent() {
+				current = false
+			}
+			got[i] = seqSearch(r, seqSteps[st].mk())
+		}
+		if !isCurrent() {
+			current = false
+		}
+		n2d, err := numToDoc(r)
+		if err != nil {
+			herr = err
+			return
+		}
+		for i := range got {
+			got[i].resolve(n2d)
+		}
+	})
+	if s.Failure != "" {
+		fs.add(rankOther, "sequence-crash:"+desc, "%s: %s", desc, s.Failure)
+		return res
+	}
+	if herr != nil {
+		res.Failure, res.Key = "harness: "+desc+": "+herr.Error(), "harness"
+		return res
+	}
+	if current {
+		res.Counts["sequences_on_the_current_epoch"]++
+		res.Nontrivial = 1
+	} else {
+		res.Counts["sequences_on_a_superseded_epoch"]++
+	}
+	for i, st := range seq {
+		step := seqSteps[st]
+		g, w := &got[i], &want[st]
+		i := i
+		wheref := func() string { return fmt.Sprintf("%s: search %d (%s)", desc, i+1, step.name) }
+		res.Evals++
+		if g.err != "" || w.err != "" {
+			if g.err != w.err {
+				fs.addw(rankOther, "sequence-error", wheref, "%s, on a fresh reader %s", g, w)
+			}
+			continue
+		}
+		same := len(g.hits) == len(w.hits)
+		for j := 0; same && j < len(g.hits); j++ {
+			a, b := g.hits[j], w.hits[j]
+			if a.doc != b.doc || a.locs != b.locs {
+				same = false
+			}
+			if step.scored && math.Float64bits(a.score) != math.Float64bits(b.score) {
+				same = false
+			}
+			if (a.expl == nil) != (b.expl == nil) || (a.expl != nil && math.Float64bits(a.expl.Value) != math.Float64bits(b.expl.Value)) {
+				same = false
+			}
+		}
+		if !same {
+			fs.addw(rankOther, "sequence", wheref, "returned %s, the same search on a fresh reader of the same content returns %s", g, w)
+		}
+		if !step.scored {
+			continue
+		}
+		for _, h := range g.hits {
+			h := h
+			wf := func() string { return fmt.Sprintf("%s doc=%d", wheref(), h.doc) }
+			if !finitePos(h.score) {
+				fs.addw(rankOther, "sequence-finite-positive", wf, "score %v is not finite and positive", h.score)
+			}
+			if h.expl != nil {
+				if math.Float64bits(h.expl.Value) != math.Float64bits(h.score) {
+					fs.addw(rankOther, "sequence-explain-value", wf, "explanation value %v, score %v", h.expl.Value, h.score)
+				}
+				res.Counts["explanation_nodes"] += int64(interpret(h.expl, wf, &fs, nil, res.Counts))
+			}
+		}
+	}
+	if idx%499 == 0 {
+		res.Sample = map[string]interface{}{"sequence": desc, "last_result": got[len(got)-1].String(), "reader_epoch_is_current": current}
+	}
+	return res
+}
+
 func main() {
 	log.SetOutput(io.Discard)
 	buildQueries()
 	explore.RegisterEnum("c17-direct", directTotal, directEval)
 	explore.RegisterEnum("c17-corpora", corporaTotal, corporaEval)
 	explore.RegisterEnum("c17-kinds", kindsTotal, kindsEval)
+	explore.RegisterEnum("c17-sequences", seqTotal, seqEval)
 	explore.WorkerMain()
 	c := checkmain.New("C17")
 	if v := c.IsReplay(); v != nil {
 		c.RunReplay(v)
 	}
-	c.Rule = "direct: every (b,k1) in {(0.75,1.2),(0.5,2)} x docCount in {1..16, 10^6, 2^40} x 8 average field lengths (total tokens N, N+1, 2N+1, 4N, 8N, 100N, 10^4 N, 10^4 N+7) x docFreq in {1..min(8,N), N} x boost {1,0.5,2,7} x freq 1..8 x docLen {1..8,100,10^4}; non-trivial = statistics some corpus can have (docLen >= freq, total tokens >= docFreq+freq-1). corpora: every assignment of 4 documents over the document alphabet (quick 5, thorough 8 texts over x,y,z including an empty field and a document without the field) x every query of the family (5 term leaves with boosts 1,2,0.5; all depth-1 booleans with must in {-,[x],[x y],[x^2],[y z]} x should in {-,[y],[y z],[y^0.5 z],[x x]} x minShould 0..|should| x mustNot in {-,[z],[x]} x boost {1,3}; depth-2 booleans whose clauses come from a pool of 2 leaves and 8 inner booleans, <=2 must, <=2 should with every minShould, <=1 mustNot, boost {1,0.5}); non-trivial = the query has at least one hit. kinds: 42 queries covering every scoring query kind (term, match or/and/fuzzy, match phrase, multi phrase, prefix, wildcard, regexp, fuzzy, term range, numeric range, date range, geo box/distance/polygon, match all, mixed booleans) x boosts {1,2,0.5,7} on a fixed 6-document corpus"
-	c.Explanation = "bounded-exhaustive enumeration. Oracle (1) BM25 laws on the direct grid and between the leaf scores of every corpus: finite and > 0, strictly increasing in freq, strictly decreasing in field length, non-increasing in docFreq at fixed docCount, linear in boost (8 ulps at the saturation value boost*ln(2+N)). (2) a reference evaluator of the boolean set semantics over the tokenised corpus selects the hits and computes boost x sum of the matching parts from leaf scores obtained by separate leaf searches; compared with the returned score within 2 ulps per query node; score and explanation value with ExplainScores are compared bit for bit with the score without it. (3) an interpreter keyed on the message text re-evaluates every explanation node from its children (sum of:, computed as boost * sum, boost, constant, the idf and tf formulas as printed, score = [boost *] idf * tf, statistic leaves; an unknown message is a failure); for term queries the statistics printed (freq, n, N, dl, avgdl, boost, k1, b) are compared with the corpus."
+	c.Rule = "direct: every (b,k1) in {(0.75,1.2),(0.5,2)} x docCount in {1..16, 10^6, 2^40} x 8 average field lengths (total tokens N, N+1, 2N+1, 4N, 8N, 100N, 10^4 N, 10^4 N+7) x docFreq in {1..min(8,N), N} x boost {1,0.5,2,7} x freq 1..8 x docLen {1..8,100,10^4}; non-trivial = statistics some corpus can have (docLen >= freq, total tokens >= docFreq+freq-1). corpora: every assignment of 4 documents over the document alphabet (quick 5, thorough 8 texts over x,y,z including an empty field and a document without the field) x every query of the family (5 term leaves with boosts 1,2,0.5; all depth-1 booleans with must in {-,[x],[x y],[x^2],[y z]} x should in {-,[y],[y z],[y^0.5 z],[x x]} x minShould 0..|should| x mustNot in {-,[z],[x]} x boost {1,3}; depth-2 booleans whose clauses come from a pool of 2 leaves and 8 inner booleans, <=2 must, <=2 should with every minShould, <=1 mustNot, boost {1,0.5}); non-trivial = the query has at least one hit. kinds: 42 queries covering every scoring query kind (term, match or/and/fuzzy, match phrase, multi phrase, prefix, wildcard, regexp, fuzzy, term range, numeric range, date range, geo box/distance/polygon, match all, mixed booleans) x boosts {1,2,0.5,7} on a fixed 6-document corpus. sequences: 2 corpora x every sequence of 1..3 searches over 11 searches of one field (term scored / score=none / with ExplainScores / with IncludeLocations / score=none with locations / through AllMatches, conjunction and disjunction scored and score=none, phrase) on one Reader from Writer.Reader() while the writer lives; non-trivial = the reader's snapshot was the writer's current epoch throughout (closed postings iterators are recycled)"
+	c.Explanation = "bounded-exhaustive enumeration. Oracle (1) BM25 laws on the direct grid and between the leaf scores of every corpus: finite and > 0, strictly increasing in freq, strictly decreasing in field length, non-increasing in docFreq at fixed docCount, linear in boost (8 ulps at the saturation value boost*ln(2+N)). (2) a reference evaluator of the boolean set semantics over the tokenised corpus selects the hits and computes boost x sum of the matching parts from leaf scores obtained by separate leaf searches; compared with the returned score within 2 ulps per query node; score and explanation value with ExplainScores are compared bit for bit with the score without it. (3) an interpreter keyed on the message text re-evaluates every explanation node from its children (sum of:, computed as boost * sum, boost, constant, the idf and tf formulas as printed, score = [boost *] idf * tf, statistic leaves; an unknown message is a failure); for term queries the statistics printed (freq, n, N, dl, avgdl, boost, k1, b) are compared with the corpus. (4) differential: every search of a sequence on one live reader must return the hits, scores, explanation values and locations (bit for bit) that the same search returns on a fresh reader of the same content, and scored hits must be finite and positive."
 	c.Assumptions = []string{
 		"ulps are measured at the magnitude of the largest intermediate: 1 for tf (a value in (0,1) computed as 1 - 1/(1+x)), boost*idf for a term score (computed as w - w/(1+x)), the sum of the children for sums; tolerance 4 ulps (sum: children+1)",
 		"a must-not-only boolean query scores boost x 1: its only matching part is the implicit match-all (constant 1), as the comment in BooleanQuery.Searcher says",
@@ -1371,6 +1741,7 @@ func main() {
 	c.AddEnum(explore.Enumerate(explore.EnumConfig{Name: "c17-direct", Param: c.Tier, Budget: c.PickD(10*time.Second, 2*time.Minute)}))
 	c.AddEnum(explore.Enumerate(explore.EnumConfig{Name: "c17-corpora", Param: c.Tier, Budget: c.PickD(32*time.Second, 8*time.Minute)}))
 	c.AddEnum(explore.Enumerate(explore.EnumConfig{Name: "c17-kinds", Param: c.Tier, Budget: c.PickD(8*time.Second, time.Minute), Chunk: 1}))
+	c.AddEnum(explore.Enumerate(explore.EnumConfig{Name: "c17-sequences", Param: c.Tier, Budget: c.PickD(12*time.Second, 2*time.Minute)}))
 	c.Extra["queries_per_corpus"] = len(queriesOf(c.Tier))
 	c.Finish()
 }
